@@ -55,6 +55,7 @@ def run(rep):
                 "Non-trivial: accepted inputs; distinct by (grammar, input).")
     rep.assumptions = ["Peg!WellFormed fragment; an attribute assigned with ?= is not assigned otherwise"]
     P.judge_universe(rep, PID, "asg", 1 if quick else 2)
+    P.judge_universe(rep, PID, "asg2", 1)
     rep.exhaustive = True
     n, per = (120, 8) if quick else (1500, 10)
     info, stats = P.judge_cases(rep, PID, cases_for(rng, n, per), label="random-assignments")
